@@ -224,15 +224,16 @@ def build(world, program):
                         log("recv_end", role, type(e).__name__)
                         if isinstance(e, asyncio.CancelledError):
                             raise
-                        if isinstance(e, BrokenResourceError):
-                            # a caller that asks again must not be told a different story
-                            try:
-                                await stream.receive(rs)
-                                log("recv_again", role, "data")
-                            except BaseException as e2:
-                                log("recv_again", role, type(e2).__name__)
-                                if isinstance(e2, asyncio.CancelledError):
-                                    raise
+                        if isinstance(e, (BrokenResourceError, EndOfStream)):
+                            # a caller that asks again (twice) must not be told a different story
+                            for _ in range(2):
+                                try:
+                                    await stream.receive(rs)
+                                    log("recv_again", role, "data")
+                                except BaseException as e2:
+                                    log("recv_again", role, type(e2).__name__)
+                                    if isinstance(e2, asyncio.CancelledError):
+                                        raise
                         return False
                     log("recv", role, len(data), data[:4].hex(), data[-2:].hex())
                     chunks[role].append(data)
@@ -331,6 +332,12 @@ def check(program, ex):
                          f"(standard_compatible=True)")
             if end not in ("EndOfStream", "BrokenResourceError", "ClosedResourceError"):
                 v.append(f"{role}.receive() ended with unexpected {end} on a truncated transport")
+            for a in again:
+                if a not in ("EndOfStream", "BrokenResourceError", "ClosedResourceError"):
+                    v.append(f"truncated transport: {role}.receive() first ended with {end}, a "
+                             f"repeated receive() then gave {a} instead of reporting the end of "
+                             f"the stream again")
+                    break
             if not sc and end == "BrokenResourceError" and False:
                 pass
     return v
